@@ -82,7 +82,7 @@ func (spc *MsgSpec) expectedLeaves() []leafExpect {
 	if msgEnc == "" {
 		msgEnc = "quoted-printable"
 	}
-	for _, p := range spc.Parts {
+	for _, p := range spc.liveParts() {
 		l := leafExpect{kind: "part", mediaType: strings.ToLower(p.CType), charset: msgCharset, content: p.Content, enc: msgEnc, desc: p.Desc}
 		if p.Charset != nil && *p.Charset != "" {
 			l.charset = *p.Charset
@@ -152,7 +152,7 @@ func oracleMessage(c *Ctx, spc *MsgSpec, out []byte, checkC01, checkC02 bool) {
 		return
 	}
 	exp := spc.expectedLeaves()
-	np, ne, na := len(spc.Parts), 0, 0
+	np, ne, na := len(spc.liveParts()), 0, 0
 	for _, f := range spc.Files {
 		if f.Attach {
 			na++
@@ -166,7 +166,7 @@ func oracleMessage(c *Ctx, spc *MsgSpec, out []byte, checkC01, checkC02 bool) {
 		allowed := map[string]bool{}
 		preformatted := map[string]bool{}
 		lastGen := map[string][]string{}
-		for _, g := range spc.Gen {
+		for _, g := range spc.expandedGen() {
 			allowed[strings.ToLower(g.Key)] = true
 			if g.Pre {
 				preformatted[strings.ToLower(g.Key)] = true
@@ -332,7 +332,7 @@ func oracleLines(c *Ctx, spc *MsgSpec, out []byte) {
 	walk = func(e *Entity, top bool) {
 		for _, f := range e.Fields {
 			pre := false
-			for _, g := range spc.Gen {
+			for _, g := range spc.expandedGen() {
 				if g.Pre && strings.EqualFold(g.Key, f.Name) {
 					pre = true
 				}
